@@ -345,7 +345,7 @@ impl TypeCollector {
 //@|    }
 //@ LOOP-END 1
 //@|    proof { gt = to_process@; }
-//@ BEFORE `continue;`
+//@ BEFORE `continue;` #*
 //@|    proof {
 //@|        gt = to_process@;
 //@|        assert(wl_inv(s, initial, init, all_types@, processed@, to_process@, Set::<String>::empty()));
